@@ -146,22 +146,11 @@ theorem correct_given_circuit (P : Params G) (a b : Bytes) (aS sid : Nat) (scala
       ((List.range nBits).map fun i => K.toPt (cp i)) wires nBits = .ok cts := by
     unfold encryptCO
     simp only [h1, h2]
-    have hlen : ((List.range nBits).map fun i => K.toPt (cp i)).length = nBits := by simp
-    generalize ((List.range nBits).map fun i => K.toPt (cp i)) = choices at hmap hlen
-    rw [if_neg (by simp [hlen])]
-    cases choices with
-    | nil => simp [nBits] at hlen
-    | cons p0 rest =>
-      simp only
-      have hmap0 := hmap
-      rw [List.mapM_cons] at hmap
-      cases hp0 : K.ofPt p0 with
-      | none => rw [hp0] at hmap; simp at hmap
-      | some q =>
-        simp only [hmap0]
-        have hs : ({ a := aS, A := S.A, AaInv := S.AaInv } : Co.SenderSetup G) = S := by rw [← hSa]
-        rw [hs, encrypt_congr K.Γ K.kdf S nBits _ cp wires (by
-          intro i hi; rw [getD_map_range, if_pos hi]), henc]
+    rw [if_neg (by simp)]
+    simp only [hmap]
+    have hs : ({ a := aS, A := S.A, AaInv := S.AaInv } : Co.SenderSetup G) = S := by rw [← hSa]
+    rw [hs, encrypt_congr K.Γ K.kdf S nBits _ cp wires (by
+      intro i hi; rw [getD_map_range, if_pos hi]), henc]
   have hr3 : round3 ⟨curve, K, c, hashOf⟩ ({ sid := sid, curveName := curve.name, scalar := aS, ax := (K.toPt S.A).x, ay := (K.toPt S.A).y, ainvx := (K.toPt S.AaInv).x, ainvy := (K.toPt S.AaInv).y }) a
       { sid := sid, curveName := curve.name, choices := (List.range nBits).map fun i => K.toPt (cp i) } key r0 inl =
       .ok ({ sid := sid, key := key, tables := Gd.rows,
@@ -181,7 +170,6 @@ theorem correct_given_circuit (P : Params G) (a b : Bytes) (aS sid : Nat) (scala
         .ok (Co.decrypt K.Γ K.kdf S.A nBits (fun i => scalars.getD i 0) (fun i => (bytesToBits b).getD i false) cts) := by
       unfold decryptCO
       simp only [List.length_map, List.length_range, hbitsB, hclen, ne_eq, not_true_eq_false, or_self, if_false, h1]
-      rw [if_neg (by simp [nBits])]
       exact congrArg Res.ok (decrypt_congr _ _ _ _ _ _ _ _ _ (by
         intro i hi; rw [getD_map_range, if_pos hi]) (by intro i _; rfl))
     rw [hdec]
